@@ -3,18 +3,18 @@ import Arc.Proofs.C15.Mask
 import Arc.Proofs.C15.Round2
 import Arc.Generated.C15
 /-!
-# C15 — SQL normalisation agrees with DuckDB's lexer and is reversible   (tree at 64dff5c)
+# C15 — SQL normalisation agrees with DuckDB's lexer and is reversible   (tree at 73763cd)
 
 `mSegs` / `render` / `unmask` model `MaskStringLiterals` / `UnmaskStringLiterals` (single-pass
 `strings.NewReplacer`), `sSegs` / `strip` model `stripSQLComments`, `lSegs` is SqlLex (the reference
 lexer; validated against DuckDB's own parser by the harness). Helper lemmas: `Arc/Proofs/C15/*`.
 
-After the repairs 8f4fe38 / abf5a7e / 942e7b2 / 64dff5c the masker's quote bodies, escape strings,
+After the repairs 8f4fe38 / abf5a7e / 942e7b2 / 64dff5c / 17363b5 / 168cceb the masker's quote bodies, escape strings,
 dollar tags and comments ARE SqlLex's, and restored text is never rescanned. Full statements that
 still do NOT hold of the code (one `_witness` each, each also a harness monitor):
 
-    theorem C15_agree_full (s) : mSegs s = lSegs s                     -- false: `$`/`e'` decided by the previous BYTE; `--` ends only at \n
-    theorem C15_strip_agree_full (t) (no literal in t) : sSegs t = lSegs t   -- false: CR, nesting, byte after a block comment
+    theorem C15_agree_full (s) : mSegs s = lSegs s                     -- false: `$`/`e'` decided by the previous BYTE
+    theorem C15_strip_agree_full (t) (no literal in t) : sSegs t = lSegs t   -- false: `--` ended by CR, nested block comments
     theorem C15_roundtrip_full (s) : unmask (mask s true).1 (mask s true).2 = s   -- false: look-alike text OUTSIDE literals
 
 They are proved on the explicit decidable classes `kClassM s = 0`, `kClassS t = 0`, `kClassP s = 0`
@@ -78,10 +78,10 @@ example : strip ([97, 32, 47, 42, 32, 120, 32, 42, 47, 32, 98, 32, 45, 45, 32, 1
 /-! ## agreement with SqlLex on the class K -/
 
 /-- **C15_agree_partial.** On `kClassM s = 0` — no `$` / `e'` that continues an identifier after `$` or
-a non-ASCII byte, none glued to a number, no `--` comment ended by a carriage return — the segmentation
+a non-ASCII byte, none glued to a number — the segmentation
 of `MaskStringLiterals` (literals, quoted identifiers, AND the comments it copies through) is exactly
-SqlLex's. Backslashes, quotes inside comments and non-ASCII dollar tags are inside the class since the
-repairs. -/
+SqlLex's. Backslashes, quotes inside comments, non-ASCII dollar tags and `--` comments ended by a carriage
+return are inside the class since the repairs. -/
 theorem C15_agree_partial (s : Bytes) (hK : kClassM s = 0) : mSegs s = lSegs s :=
   mSegsF_eq_lSegsF s.length false 0 s (Nat.le_refl _) hK
 
@@ -90,8 +90,7 @@ theorem C15_agree_partial (s : Bytes) (hK : kClassM s = 0) : mSegs s = lSegs s :
 example : kClassM ([83, 69, 76, 69, 67, 84, 32, 39, 97, 92, 39, 32, 65, 83, 32, 120, 44, 32, 69, 39, 92, 92, 39, 32, 65, 83, 32, 121, 44, 32, 36, 195, 169, 36, 113, 36, 195, 169, 36, 32, 47, 42, 32, 39, 32, 42, 47, 32, 70, 82, 79, 77, 32, 34, 116, 92, 34, 32, 45, 45, 32, 39, 32, 34, 10] : Bytes) = 0 := by decide
 
 /-- **C15_strip_agree_partial.** On `kClassS t = 0` (text without literals — what the masker hands
-over —, no nested block comment, no `--` comment ended by a carriage return, not exactly one byte
-after a block comment) the comment spans of `stripSQLComments` are exactly SqlLex's. -/
+over —, no nested block comment, no `--` comment ended by a carriage return) the comment spans of `stripSQLComments` are exactly SqlLex's. -/
 theorem C15_strip_agree_partial (t : Bytes) (hK : kClassS t = 0) : sSegs t = lSegs t :=
   sSegsF_eq_lSegsF t.length false t (Nat.le_refl _) hK
 
@@ -111,20 +110,17 @@ theorem C15_agree_witness_dollar_after_digit :
 /-- `1e'a'` -/
 theorem C15_agree_witness_estring_after_digit :
     kClassM ([49, 101, 39, 97, 39] : Bytes) = kEAfterDigit ∧ mSegs ([49, 101, 39, 97, 39] : Bytes) ≠ lSegs ([49, 101, 39, 97, 39] : Bytes) := by decide
-/-- `--c␍'a'`: DuckDB ends the comment at the carriage return and sees the literal `'a'`; the masker
-(64dff5c) copies the comment through up to `\n` and never masks it -/
-theorem C15_agree_witness_cr_line_comment :
-    kClassM ([45, 45, 99, 13, 39, 97, 39] : Bytes) = kCrEndsLineM ∧ mSegs ([45, 45, 99, 13, 39, 97, 39] : Bytes) ≠ lSegs ([45, 45, 99, 13, 39, 97, 39] : Bytes) := by decide
-
 /-- a carriage return ends a `--` comment for DuckDB, not for `stripSQLComments`: `b` is deleted -/
 theorem C15_strip_witness_cr :
     kClassS ([45, 45, 97, 13, 98] : Bytes) = kCrEndsLine ∧ sSegs ([45, 45, 97, 13, 98] : Bytes) ≠ lSegs ([45, 45, 97, 13, 98] : Bytes) ∧ strip ([45, 45, 97, 13, 98] : Bytes) true = [] := by decide
 /-- block comments nest in DuckDB: `c*/` survives stripping although it is inside the comment -/
 theorem C15_strip_witness_nested :
     kClassS ([47, 42, 97, 47, 42, 98, 42, 47, 99, 42, 47, 100, 101] : Bytes) = kNested ∧ sSegs ([47, 42, 97, 47, 42, 98, 42, 47, 99, 42, 47, 100, 101] : Bytes) ≠ lSegs ([47, 42, 97, 47, 42, 98, 42, 47, 99, 42, 47, 100, 101] : Bytes) ∧ strip ([47, 42, 97, 47, 42, 98, 42, 47, 99, 42, 47, 100, 101] : Bytes) true = ([32, 99, 42, 47, 100, 101] : Bytes) := by decide
-/-- exactly one byte after a block comment is swallowed: `/**/x` becomes a single space -/
-theorem C15_strip_witness_byte_after_block :
-    kClassS ([47, 42, 42, 47, 120] : Bytes) = kByteAfterBlock ∧ sSegs ([47, 42, 42, 47, 120] : Bytes) ≠ lSegs ([47, 42, 42, 47, 120] : Bytes) ∧ strip ([47, 42, 42, 47, 120] : Bytes) true = ([32] : Bytes) := by decide
+/-- `/**/x` (one byte after a block comment — swallowed before 168cceb) is inside the class now and
+keeps its `x` -/
+example : kClassS ([47, 42, 42, 47, 120] : Bytes) = 0 ∧ strip ([47, 42, 42, 47, 120] : Bytes) true = ([32, 120] : Bytes) := by decide
+/-- `--c␍'a'` (comment ended by a carriage return — not masked before 17363b5) is inside `kClassM` now -/
+example : kClassM ([45, 45, 99, 13, 39, 97, 39] : Bytes) = 0 := by decide
 
 /-! ## round trip -/
 
